@@ -32,6 +32,7 @@
 mod bread;
 mod hook;
 mod qy;
+mod rj;
 mod rd;
 mod rt;
 mod sk;
@@ -204,6 +205,8 @@ enum What {
     /// CRAM write history of `n` minimal records (short reads on a tiny reference): more than one container at the
     /// production layout (10 240 records per container) — the async CRAM writer has no layout override
     Wc { n: usize },
+    /// reject-then-accept write history on one writer of `kind`, derived from the model of corpus item `base`
+    Wj { base: usize, kind: Kind },
 }
 
 #[derive(Clone, Debug)]
@@ -236,6 +239,7 @@ fn case_json(w: &World, c: &Case) -> Value {
         }
         What::Wr { item, level } => json!({"kind": "WR", "item": w.items[*item].name, "level": level}),
         What::Wc { n } => json!({"kind": "WC", "records": n}),
+        What::Wj { base, kind } => json!({"kind": "WJ", "model_of": w.items[*base].name, "writer": kind.name()}),
         What::Wb { class, len, split, flush_every, level, pseed } => {
             json!({"kind": "WB", "class": class, "len": len, "split": split, "flush_every": flush_every, "level": level, "pseed": pseed})
         }
@@ -907,6 +911,24 @@ fn gen_world(ctx: &Ctx) -> World {
                 c.script = scale_script(c.script.clone(), 400_000, 20_000);
             }
             chunked(What::Wc { n }, cfgs, 2, &mut cases);
+        }
+    }
+    // --- WJ: reject-then-accept write histories
+    if want("wj") {
+        for (i, item) in items.iter().enumerate() {
+            let wanted = match item.kind {
+                Kind::Sam | Kind::Vcf => item.side.model.is_some() && !item.name.contains("c16-") && (item.name.contains("/small-") || item.name.contains("/tiny-") || (!quick && item.name.contains("multiblock"))),
+                Kind::Fastq => item.name.ends_with("small-6reads") || item.name.contains("tiny-") || (!quick && item.name.contains("many-300reads")),
+                _ => false,
+            };
+            if !wanted {
+                continue;
+            }
+            for &kind in rj::kinds_of(item.kind) {
+                let salt = salt_of(&item.name, 60_000 + kind as u64);
+                let cfgs = cfgs_rotating(if tiny { 1 } else if quick { 4 } else { 16 }, salt, seed, wr::has_worker_count(kind), item.bytes.len().max(1));
+                chunked(What::Wj { base: i, kind }, cfgs, per_case, &mut cases);
+            }
         }
     }
     // --- WB: seeded BGZF write histories (lengths around the staging limit, odd splits, flush patterns, every level)
@@ -1865,7 +1887,8 @@ fn run_wr(o: &mut CaseOut, item: &Item, level: Option<u8>, cfgs: &[Cfg]) {
                                     let class = if sa == ss {
                                         "blocks-reordered".to_string()
                                     } else if pa.len() < ps.len() && pa[d..] == ps[d + (ps.len() - pa.len())..] {
-                                        format!("payload-misses-a-span-of-{}-bytes", ps.len() - pa.len())
+                                        // (the number of bytes is in the description, not in the signature)
+                                        "payload-misses-a-span".to_string()
                                     } else if pa.len() < ps.len() {
                                         "payload-shorter".to_string()
                                     } else if pa.len() > ps.len() {
@@ -1876,11 +1899,12 @@ fn run_wr(o: &mut CaseOut, item: &Item, level: Option<u8>, cfgs: &[Cfg]) {
                                     o.violation(
                                         format!("{sig_prefix}:{class}"),
                                         format!(
-                                            "{what}: the async output inflates to {} bytes in {} members, the sync output to {} bytes in {} members, and the payloads differ from byte {d} on (deflate inversions observed in this run: {}) [{}]",
+                                            "{what}: the async output inflates to {} bytes in {} members, the sync output to {} bytes in {} members, and the payloads differ from byte {d} on ({} bytes shorter / longer) (deflate inversions observed in this run: {}) [{}]",
                                             wa.total,
                                             wa.members.len(),
                                             ws.total,
                                             ws.members.len(),
+                                            (ps.len() as i64 - pa.len() as i64).abs(),
                                             hook::analyse(&log, false).inversions,
                                             cfg_json(cfg)
                                         ),
@@ -1922,6 +1946,106 @@ fn run_wr(o: &mut CaseOut, item: &Item, level: Option<u8>, cfgs: &[Cfg]) {
     }
 }
 
+fn run_wj(o: &mut CaseOut, base: &Item, kind: Kind, cfgs: &[Cfg]) {
+    let module = format!("{}-writer", kind.name());
+    let text = base.side.model.as_deref().unwrap_or(&base.bytes);
+    let m = match guard::catch(|| rj::model(base.kind, text)) {
+        Ok(Ok(m)) => m,
+        _ => {
+            o.inconclusive.push(format!("{}: cannot build the reject-then-accept history", base.name));
+            return;
+        }
+    };
+    let (sync_calls, sync_out) = match guard::catch(|| rj::run_sync(kind, &m)) {
+        Ok(x) => x,
+        Err(p) => {
+            o.inconclusive.push(format!("{} -> {}: the SYNC writer panicked on the reject-then-accept history: {}", base.name, kind.name(), p.sig));
+            return;
+        }
+    };
+    let rejected = sync_calls.iter().filter(|c| c.contains(":err:")).count();
+    o.count(&format!("reject_then_accept_calls_rejected_by_sync[{}]", kind.name()), rejected as u64);
+    o.count(&format!("reject_then_accept_calls[{}]", kind.name()), sync_calls.len() as u64);
+    // a rejected call must be followed by an accepted one somewhere, or the history shows nothing
+    if let Some(i) = sync_calls.iter().position(|c| c.contains(":err:")) {
+        if sync_calls[i + 1..].iter().any(|c| c.ends_with(":ok") && !c.starts_with("finish")) {
+            o.count(&format!("reject_then_accept_histories_with_accept_after_reject[{}]", kind.name()), 1);
+        }
+    }
+    let sync_walk = if kind.is_bgzf_wrapped() { obgzf::walk(&sync_out).ok() } else { None };
+    // what the writer emits for the valid records alone: tells WHICH side kept something of a rejected record
+    let clean: Option<Vec<u8>> = guard::catch(|| rj::run_sync(kind, &rj::valid_only(&m))).ok().map(|(_, out)| if kind.is_bgzf_wrapped() { obgzf::walk(&out).map(|w| w.concat()).unwrap_or_default() } else { out });
+    let who = |async_payload: &[u8], sync_payload: &[u8]| -> &'static str {
+        match &clean {
+            Some(c) if c.as_slice() == async_payload && c.as_slice() != sync_payload => "sync-output-keeps-part-of-a-rejected-record",
+            Some(c) if c.as_slice() == sync_payload && c.as_slice() != async_payload => "async-output-keeps-part-of-a-rejected-record",
+            _ => "outputs-differ",
+        }
+    };
+    let sig_prefix = format!("{}:writer:reject-then-accept", kind.name());
+    for cfg in cfgs {
+        let wl = if wr::has_worker_count(kind) { Some(cfg.workers) } else { None };
+        pair_counters(o, &module, "writer_reject_then_accept", cfg, wl);
+        hook::arm(&[], Vec::new());
+        let sink = PollWrite::new(cfg.script.clone());
+        let (out, stats) = (sink.out.clone(), sink.stats.clone());
+        let workers = cfg.workers;
+        let res = rt::run_local(cfg.flavor, rj::run_async(kind, &m, sink, workers));
+        let _ = hook::disarm();
+        stats_fold(o, &module, &stats.lock().unwrap());
+        o.fps.push(cfg_fp(&module, "wj", cfg));
+        let what = format!("{} written as {} with rejected records in between", base.name, kind.name());
+        match res {
+            Err(e) => run_err(o, &sig_prefix, &what, cfg, e),
+            Ok(calls) => {
+                if let Some(i) = (0..sync_calls.len().max(calls.len())).find(|&i| sync_calls.get(i) != calls.get(i)) {
+                    let class = |c: Option<&String>| c.map(|c| c.split_once(':').map(|x| x.1.to_string()).unwrap_or_default()).unwrap_or_else(|| "missing".into());
+                    let label = sync_calls.get(i).or(calls.get(i)).map(|c| c.split(':').next().unwrap_or("").to_string()).unwrap_or_default();
+                    o.violation(
+                        format!("{sig_prefix}:call-result-differs:{label}:{}->{}", class(sync_calls.get(i)), class(calls.get(i))),
+                        format!("{what}: call #{i}: sync writer {:?}, async writer {:?}; calls so far (sync): {:?} [{}]", sync_calls.get(i), calls.get(i), &sync_calls[..i.min(sync_calls.len())], cfg_json(cfg)),
+                    );
+                    continue;
+                }
+                let a = out.lock().unwrap().clone();
+                // which rejection class precedes the first difference (the record that left something behind)
+                let after = |pos_hint: &str| pos_hint.to_string();
+                let _ = after;
+                if !kind.is_bgzf_wrapped() {
+                    if a != sync_out {
+                        let d = a.iter().zip(&sync_out).position(|(x, y)| x != y).unwrap_or(a.len().min(sync_out.len()));
+                        o.violation(
+                            format!("{sig_prefix}:{}", who(&a, &sync_out)),
+                            format!("{what}: every call returned the same result on both sides ({rejected} rejected), but the async sink holds {} bytes and the sync sink {} bytes; first difference at byte {d} [{}]", a.len(), sync_out.len(), cfg_json(cfg)),
+                        );
+                    } else {
+                        o.count("reject_then_accept_pairs_equal", 1);
+                    }
+                    continue;
+                }
+                match (obgzf::walk(&a), &sync_walk) {
+                    (Err(why), _) => o.violation(format!("{sig_prefix}:malformed-bgzf"), format!("{what}: the independent walker rejects the async output: {why} [{}]", cfg_json(cfg))),
+                    (Ok(wa), Some(ws)) => {
+                        let (pa, ps) = (wa.concat(), ws.concat());
+                        if !wa.ends_with_eof_marker() {
+                            o.violation(format!("{sig_prefix}:missing-eof-marker"), format!("{what}: no EOF marker after shutdown() [{}]", cfg_json(cfg)));
+                        } else if pa != ps {
+                            let d = pa.iter().zip(&ps).position(|(x, y)| x != y).unwrap_or(pa.len().min(ps.len()));
+                            o.violation(
+                                format!("{sig_prefix}:{}", who(&pa, &ps)),
+                                format!("{what}: every call returned the same result on both sides ({rejected} rejected), but the async output inflates to {} bytes and the sync output to {} bytes; first difference at byte {d} [{}]", pa.len(), ps.len(), cfg_json(cfg)),
+                            );
+                        } else {
+                            o.count("reject_then_accept_pairs_equal", 1);
+                        }
+                    }
+                    (Ok(_), None) => o.inconclusive.push(format!("{what}: the SYNC output is not walkable")),
+                }
+            }
+        }
+    }
+}
+
 fn run_case(ctx: &Ctx, w: &World, c: &Case) -> CaseOut {
     let mut o = CaseOut::new();
     o.evaluations = c.cfgs.len() as u64;
@@ -1930,6 +2054,7 @@ fn run_case(ctx: &Ctx, w: &World, c: &Case) -> CaseOut {
         What::Sk { item, reseal, hseed } => run_sk(&mut o, &w.items[*item], *reseal, *hseed, &c.cfgs, ctx.quick() || ctx.param("tiny").is_some()),
         What::Qy { data, index, mode, qseed } => run_qy(&mut o, &w.items[*data], &w.items[*index], *mode, *qseed, &c.cfgs, ctx.quick() || ctx.param("tiny").is_some()),
         What::Wr { item, level } => run_wr(&mut o, &w.items[*item], *level, &c.cfgs),
+        What::Wj { base, kind } => run_wj(&mut o, &w.items[*base], *kind, &c.cfgs),
         What::Wc { n } => {
             let reference: String = (0..200).map(|i| b"ACGTTGCAAC"[(i * 7 + i / 11) % 10] as char).collect();
             let mut sam = format!("@HD\tVN:1.6\tSO:coordinate\n@SQ\tSN:sq0\tLN:{}\n", reference.len());
